@@ -112,6 +112,11 @@ def _rand_leaf(rng, shape, dt, mode):
         a = b.reshape(shape)
     elif mode == "ones":
         a = np.ones(shape, dtype=a.dtype)
+    elif mode == "nan":
+        b = a.ravel().copy()
+        if b.size:
+            b[int(rng.integers(0, b.size))] = np.nan
+        a = b.reshape(shape)
     return a.astype(dt)
 
 
@@ -131,7 +136,7 @@ def _apply(fn, shp, leaves):
     return ops.unpack(fn(ops.pack(shp, [jnp.asarray(l) for l in leaves])))
 
 
-def _lin_defect(lhs, rhs):
+def _lin_defect(lhs, rhs, nan_ok=False):
     """max over leaves of |lhs-rhs| / (1 + max|lhs|,|rhs|)"""
     worst = 0.0
     for l, r in zip(lhs, rhs):
@@ -141,6 +146,12 @@ def _lin_defect(lhs, rhs):
             return float("inf")
         if l.size == 0:
             continue
+        if nan_ok:
+            # NaN probe: both sides must be non-finite at the same places and agree elsewhere
+            fl, fr = np.isfinite(l), np.isfinite(r)
+            if not np.array_equal(fl, fr):
+                return float("inf")
+            l, r = np.where(fl, l, 0), np.where(fr, r, 0)
         sc = 1.0 + max(float(np.max(np.abs(l))), float(np.max(np.abs(r))))
         d = float(np.max(np.abs(l.astype(np.complex128) - r.astype(np.complex128)))) / sc
         if not np.isfinite(d):
@@ -164,7 +175,7 @@ def probe(fn, shp, dt, rng, field, mode="random"):
     Ax, Ay, Az = _apply(fn, shp, x), _apply(fn, shp, y), _apply(fn, shp, z)
     rhs = [a * p + b * q for p, q in zip(Ax, Ay)]
     tol = max(_tol(dt), _tol(Ax[0].dtype) if Ax and Ax[0].size else 0.0)
-    d = _lin_defect(Az, rhs)
+    d = _lin_defect(Az, rhs, nan_ok=(mode == "nan"))
     nontrivial = any(np.any(np.asarray(p) != 0) for p in Ax)
 
     def enc(ls):
@@ -215,7 +226,7 @@ def oracle_for(rng):
     def oracle(case):
         A, fn, shp, dt = _view_fn(case["cls"], case["config"], case["view"])
         fld = tr.field_of(A)
-        for mode in ("random", "negative", "large", "basis", "cancel", "ones", "random", "random"):
+        for mode in ("random", "negative", "large", "basis", "cancel", "ones", "random", "random", "nan"):
             try:
                 bad, _ = probe(fn, shp, dt, rng, fld, mode)
             except Exception as e:  # noqa: BLE001
